@@ -302,6 +302,8 @@ class SimSolver(object):
         self.commands = []
         self.eof_reads = 0
         self.print_success = False
+        self.refuse = set()               # symbols whose declaration the solver refuses (e.g. sort outside its logic)
+        self.refused = []
 
     def feed(self, text):
         self.inbuf += text
@@ -321,6 +323,10 @@ class SimSolver(object):
     def execute(self, c):
         name = c[0].text if isinstance(c, list) and c and isinstance(c[0], refsmt.Atom) else "?"
         self.commands.append(_unparse(c))
+        if name in ("declare-fun", "declare-const") and len(c) > 1 and _unparse(c[1]).strip("|") in self.refuse:
+            self.refused.append(_unparse(c))
+            self.out += '(error "this logic does not support the sort of %s")\n' % _unparse(c[1]).strip("|")
+            return
         try:
             refsmt.run_command(self.script, self.rd, c)
         except refsmt.SmtError as e:
@@ -454,7 +460,7 @@ class SolverWorld(World):
 
 
 T_ALPHABET = ["AX", "AY", "AU", "P", "P2", "P0", "O", "O2", "O0", "R", "S", "Q", "M", "GV"]
-T_NAMES = {"AQ": "assert forall q1 q2: V. q1=q2 (sort V occurs in the binder only)", "AX": "assert x<3", "AY": "assert a|x<y", "AU": "assert e1=e2 (sort U)", "P": "push", "P2": "push 2", "P0": "push 0",
+T_NAMES = {"AQO": "assert forall x'. exists idx[0], let. x' < idx[0] < let (bound names that need quoting)", "AQ": "assert forall q1 q2: V. q1=q2 (sort V occurs in the binder only)", "AX": "assert x<3", "AY": "assert a|x<y", "AU": "assert e1=e2 (sort U)", "P": "push", "P2": "push 2", "P0": "push 0",
            "O": "pop", "O0": "pop 0", "O2": "pop 2", "R": "reset_assertions", "S": "solve", "Q": "is_sat(b&x<z)", "M": "get_model", "GV": "get_value(x)"}
 
 
@@ -523,7 +529,8 @@ def t_sequences(max_len):
                     ("AX", "P", "AU", "S", "O", "S", "M"),
                     # a closed formula whose sort occurs in its binder only (declared although no symbol is new)
                     ("AQ", "S"), ("AX", "AQ", "S", "M"), ("P", "AQ", "O", "AQ", "S"), ("AQ", "R", "AQ", "S"), ("AX", "S", "AQ", "Q"),
-                    ("P", "AQ", "S", "O", "AX", "S")):
+                    ("P", "AQ", "S", "O", "AX", "S"),
+                    ("AQO", "S"), ("AX", "AQO", "S", "M"), ("P", "AQO", "O", "AQO", "S"), ("AQO", "Q")):
             if t_legal(seq) and seq not in seen:
                 out.append(seq)
                 seen.add(seq)
@@ -557,7 +564,10 @@ def _text_chunk(seqs):
         VS = ("CUSTOM", "V")
         q1, q2 = w.symbol("q1", VS), w.symbol("q2", VS)
         FQV = w.app("ForAll", [q1, q2], w.app("Equals", q1, q2))
-        forms = {"AX": FX, "AY": FY, "AU": FU, "AQ": FQV}
+        # bound variables whose names need quoting (and a reserved word): the binder and the body must spell them alike
+        xp, ix, lt_ = w.symbol("x'", INT), w.symbol("idx[0]", INT), w.symbol("let", INT)
+        FQO = w.app("ForAll", [xp], w.app("Exists", [ix, lt_], w.app("And", w.app("LT", xp, ix), w.app("LT", ix, lt_))))
+        forms = {"AX": FX, "AY": FY, "AU": FU, "AQ": FQV, "AQO": FQO}
         model = {"x": 1, "y": 2, "z": 5, "a": True, "b": True}
         logic = it.module_global(w.repo.modules["pysmt.logics"], "QF_UFLIA")
         out = []
@@ -670,6 +680,112 @@ def _text_chunk(seqs):
         r = res[0]
         return [(seq, "unsupported", ["%s %s" % (r.kind, str(r.detail)[:200])], 0) for seq in seqs]
     return res[0].detail
+
+
+# ---------------------------------------------------------------------------------------------- failing calls
+F_HEADS = [("AB",), ("AX", "AB"), ("P", "AB", "O"), ("P", "AB"), ("AB", "AB"), ("AYB", "AB"), ("Q", "AB")]
+F_TAILS = [("AYB", "S", "M"), ("AX", "AYB", "S"), ("P", "AYB", "S", "O", "S"), ("AYB", "Q"), ("Q", "AYB", "S"), ("S", "AYB", "GVY")]
+F_NAMES = dict(T_NAMES, AB="assert x<yb & 1.0<rr (the solver refuses to declare rr)", AYB="assert yb<x", GVY="get_value(yb)")
+
+
+def _fail_chunk(cases):
+    """SmtLibSolver after a call that failed half-way (a declaration refused by the solver): every later call has the
+    outcome it has when the failing call is never made."""
+    shape = Shape(("lit", True, BOOL))
+    INT, REAL = ("INT",), ("REAL",)
+
+    def call(w, it, f0):
+        it.apply_decorators = {"pysmt.decorators.clear_pending_pop"}
+        # creation order fixes the order in which the free symbols of a formula are visited: x, rr, yb
+        x = w.symbol("x", INT)
+        rr = w.symbol("rr", REAL)
+        yb = w.symbol("yb", INT)
+        z = w.symbol("z", INT)
+        b = w.symbol("b", ("BOOL",))
+        forms = {"AX": w.app("LT", x, w.int_const(3)), "AYB": w.app("LT", yb, x),
+                 "AB": w.app("And", w.app("LT", x, yb), w.app("LT", w.app("Real", 1), rr))}
+        FQ = w.app("And", b, w.app("LT", x, z))
+        model = {"x": 1, "yb": 0, "z": 5, "b": True, "rr": 2}
+        logic = it.module_global(w.repo.modules["pysmt.logics"], "QF_LIA")
+
+        def run(seq, skip_failing):
+            sim = SimSolver(["sat"] * 8, model)
+            sim.refuse = {"rr"}
+            w.sim = sim
+            solver = it.instantiate(ClassRef(SMTLIB_SOLVER), [["sim"], w.env, logic], {})
+            outs = []
+            for st in seq:
+                if st == "AB" and skip_failing:
+                    continue
+                try:
+                    if st in forms:
+                        it.call(it.getattr(solver, "add_assertion"), [forms[st]])
+                        r = "ok"
+                    elif st == "P":
+                        it.call(it.getattr(solver, "push"), [])
+                        r = "ok"
+                    elif st == "O":
+                        it.call(it.getattr(solver, "pop"), [])
+                        r = "ok"
+                    elif st == "S":
+                        r = it.call(it.getattr(solver, "solve"), [])
+                    elif st == "Q":
+                        r = it.call(it.getattr(solver, "is_sat"), [FQ])
+                    elif st == "GVY":
+                        v = it.call(it.getattr(solver, "get_value"), [yb])
+                        r = w.npayload(v) if w.is_node(v) else v
+                    elif st == "M":
+                        m = it.call(it.getattr(solver, "get_model"), [])
+                        asg = m.attrs.get("assignment") if isinstance(m, AObj) else {}
+                        # the values of the symbols of the live assertions (the failed call may have left further
+                        # symbols declared in the solver: their presence in the model is not compared)
+                        r = tuple(sorted((w.npayload(k_)[0], w.npayload(v_) if w.is_node(v_) else v_) for k_, v_ in asg.items()
+                                         if w.npayload(k_)[0] in ("x", "yb")))
+                    out = ("returns", r)
+                except AbsRaise as ex:
+                    out = ("raises", ex.cls_name)
+                if st != "AB":
+                    outs.append((st, out))
+                elif out[0] != "raises":
+                    outs.append((st, ("the refused call", out)))
+                if sim.out.strip():
+                    # a reply left unread by a failing call: read by nobody; later calls see it
+                    pass
+            return outs, list(sim.illegal)
+        res = []
+        for head, tail in cases:
+            seq = head + tail
+            try:
+                got, illegal = run(seq, False)
+                want, _ = run(seq, True)
+                res.append((seq, "ok", got, want, illegal))
+            except Unsupported as ex:
+                res.append((seq, "unsupported", str(ex), None, None))
+        return res
+
+    def post(w, f, val, facts):
+        return proc.ProcResult(shape, "valid", val)
+    res = proc.run_proc(shape, call, post=post, services="full", max_paths=4, world_cls=SolverWorld,
+                        interp_kwargs={"max_steps": 20000000, "max_loop": 200000})
+    if len(res) != 1 or res[0].kind != "valid":
+        r = res[0]
+        return [(h + t, "unsupported", "%s %s" % (r.kind, str(r.detail)[:200]), None, None) for h, t in cases]
+    return res[0].detail
+
+
+_FCACHE = {}
+
+
+def text_failure_results(repo, tier="quick"):
+    key = (repo.root, tier)
+    if key not in _FCACHE:
+        cases = [(h, t) for h in F_HEADS for t in F_TAILS]
+        chunks = [cases[i:i + 3] for i in range(0, len(cases), 3)]
+        out = []
+        for r in parallel_map(_fail_chunk, chunks):
+            out.extend(r)
+        _FCACHE[key] = out
+    return _FCACHE[key]
 
 
 _TCACHE = {}
